@@ -11,7 +11,7 @@ use proptest::prelude::*;
 use serde_json::json;
 use std::sync::atomic::{AtomicU64, Ordering};
 
-const ALPHABET: &[&str] = &["]", "0", "1", "5", "9", " ", "x", "４", "[", ":", "-", "٣"];
+const ALPHABET: &[&str] = &["]", "0", "1", "5", "9", " ", "x", "４", "[", ":", "-", "٣", "\t", "\u{a0}"];
 const HEADS: &[&str] = &[
     "[ref: ",
     "",
@@ -178,7 +178,7 @@ fn near_miss_family() -> Vec<String>
     }
     nums.sort();
     nums.dedup();
-    let subs: Vec<char> = "[]ref: 019x４٣²RF-+".chars().collect();
+    let subs: Vec<char> = "[]ref: 019x４٣²RF-+\t\n\r\u{a0}\u{2003}\u{b}".chars().collect();
     let mut out: Vec<String> = Vec::new();
     for n in &nums
     {
@@ -227,7 +227,7 @@ pub fn run(env: &Env, rec: &Recorder) -> (String, Vec<&'static str>)
     else
     {
         // (1) bounded exhaustive: every head x every tail up to the length bound
-        let max_len = env.tier.pick(4usize, 6usize);
+        let max_len = env.tier.pick(5usize, 6usize);
         let mut total: u64 = 0;
         let mut blocks: Vec<(usize, usize, u64)> = Vec::new(); // (head, len, count)
         for h in 0..HEADS.len()
@@ -420,7 +420,7 @@ pub fn run(env: &Env, rec: &Recorder) -> (String, Vec<&'static str>)
         },
     );
     (
-        "(1) every string head+tail for 14 heads around the token and all tails up to the length bound over a 12-symbol alphabet (ASCII and non-ASCII digits, brackets, colon, space, sign); (2) the complete single-edit neighbourhood of `[ref: D]` for all digit strings up to length 3 and the u32 / 10-digit boundary values; (3) longer strings from a token grammar; (4) modelled statements with ref-like text in prefix, body, target, key-value strings and format arguments, in-process and through the executable. Oracle: hand-written predicate for the documented rule, and the documented regex for inserted tokens. Non-trivial = distinct string whose first 8 characters (digit runs collapsed) are within edit distance 2 of `[ref: 1]`".to_string(),
+        "(1) every string head+tail for 14 heads around the token and all tails up to the length bound over a 14-symbol alphabet (ASCII and non-ASCII digits, brackets, colon, space, tab, no-break space, sign); (2) the complete single-edit neighbourhood of `[ref: D]` for all digit strings up to length 3 and the u32 / 10-digit boundary values; (3) longer strings from a token grammar; (4) modelled statements with ref-like text in prefix, body, target, key-value strings and format arguments, in-process and through the executable. Oracle: hand-written predicate for the documented rule, and the documented regex for inserted tokens. Non-trivial = distinct string whose first 8 characters (digit runs collapsed) are within edit distance 2 of `[ref: 1]`".to_string(),
         vec!["exhaustive:true refers to parts (1) and (2) only, up to the stated bounds"],
     )
 }
